@@ -133,7 +133,7 @@ func (p *Parser) parseNotationInComments(notations []*ast.Comment, validOps map[
 			if len(m) < 2 {
 				return logger.Errorf("%v: needs <dst> <literal> args", p.fset.Position(n.Pos()))
 			}
-			if _, err := goparser.ParseExpr(m[1]); err != nil {
+			if expr, err := goparser.ParseExpr(m[1]); err != nil || !isValueExpr(expr) {
 				// The text is copied into the function as it is: what is not an expression would only be
 				// reported by the formatter, with a position in the file that is then never written.
 				return logger.Errorf("%v: the literal %v is not a Go expression", p.fset.Position(n.Pos()), m[1])
@@ -307,4 +307,19 @@ func (p *Parser) lookupManipulatorFunc(funcName, optName string, pos token.Pos) 
 		RetError:       sig.Results().Len() == 1 && util.IsErrorType(sig.Results().At(0).Type()),
 		Pos:            pos,
 	}, nil
+}
+
+// isValueExpr returns false for what the parser accepts as an expression but what cannot stand on the
+// right-hand side of an assignment: a type (the parser reads `[]int` or `struct{}` as expressions) and
+// the blank identifier.
+func isValueExpr(expr ast.Expr) bool {
+	switch e := expr.(type) {
+	case *ast.ArrayType, *ast.MapType, *ast.ChanType, *ast.FuncType, *ast.StructType, *ast.InterfaceType:
+		return false
+	case *ast.Ident:
+		return e.Name != "_"
+	case *ast.ParenExpr:
+		return isValueExpr(e.X)
+	}
+	return true
 }
